@@ -756,19 +756,19 @@ func (r *Runner) resolvePercentBinaryExpression(v1, v2 interface{}) (interface{}
 func (r *Runner) resolveAmpersandBinaryExpression(v1, v2 interface{}) (interface{}, error) {
 	i1, _ := convToNumber(v1).Int64()
 	i2, _ := convToNumber(v2).Int64()
-	return newDecimalBig().SetFloat64(float64(i1 & i2)), nil
+	return newDecimalBig().SetMantScale(i1&i2, 0), nil
 }
 
 func (r *Runner) resolveBarBinaryExpression(v1, v2 interface{}) (interface{}, error) {
 	i1, _ := convToNumber(v1).Int64()
 	i2, _ := convToNumber(v2).Int64()
-	return newDecimalBig().SetFloat64(float64(i1 | i2)), nil
+	return newDecimalBig().SetMantScale(i1|i2, 0), nil
 }
 
 func (r *Runner) resolveCaretBinaryExpression(v1, v2 interface{}) (interface{}, error) {
 	i1, _ := convToNumber(v1).Int64()
 	i2, _ := convToNumber(v2).Int64()
-	return newDecimalBig().SetFloat64(float64(i1 ^ i2)), nil
+	return newDecimalBig().SetMantScale(i1^i2, 0), nil
 }
 
 func (r *Runner) resolveEqualsEqualsBinaryExpression(expr *BinaryExpression, v1, v2 interface{}) (interface{}, error) {
@@ -1282,7 +1282,7 @@ func funToString(v interface{}) (string, error) {
 func funToInt(v interface{}) (*decimal.Big, error) {
 	n := convToNumber(v)
 	iv, _ := n.Int64()
-	return newDecimalBig().SetFloat64(float64(iv)), nil
+	return newDecimalBig().SetMantScale(iv, 0), nil
 }
 
 func funToFloat(v interface{}) (*decimal.Big, error) {
